@@ -9,12 +9,7 @@ HOOKS = dict(
     add_only=True,
 )
 
-ENGINES = [
-    dict(name="SpeedProfile", path="specs/SpeedProfile.tla", serves_properties=["C02", "C13"],
-         kind_free_text="TLA+ spec (Level A Canon/Safe/Exact/Canonical; Level B transcription of insert_speed/add_speeds), "
-                        "TLC exhaustive on bounded layouts, every configuration replayed into real PathTpc/TrainSimBuilder/"
-                        "SpeedLimitTrainSim, recorded profiles validated by TLC (SpeedProfileTrace.tla)"),
-]
+ENGINES = []
 
 NOTES = ("Every check = TLC model check of an implementation-shaped TLA+ spec + spec->implementation replay of the "
          "TLC-enumerated cases + TLC validation of the recorded implementation states against the spec's own invariants. "
@@ -24,17 +19,4 @@ NOTES = ("Every check = TLC model check of an implementation-shaped TLA+ spec + 
 
 NOT_APPLICABLE = {}
 
-_SP_NOTE = ("Trusted: TLC, the JSON projection of PathTpc (serde), the harness materialisation of the abstract layout as a "
-            "Network (validated by altrios itself). Bounded: exhaustive only up to the lattice bounds of the MC configs; "
-            "random metre-scale layouts beyond. One car type per train.")
-CHECKS = {
-    "C02": dict(engine="SpeedProfile", design_ref="3 (C02 / C13)", technique="TLA+ spec + TLC model checking + trace validation of replayed cases",
-                text="TLC checks Safe on every reachable state of the bounded SpeedProfile model (all sorted restriction lists per "
-                     "link, head/tail sets, gates, 1-3 links) and re-evaluates Safe on the profile the real code built for every "
-                     "one of those configurations through five construction paths, plus seeded random layouts.",
-                note=_SP_NOTE),
-    "C13": dict(engine="SpeedProfile", design_ref="3 (C02 / C13)", technique="TLA+ spec + TLC model checking + trace validation of replayed cases",
-                text="Same runs as C02; TLC evaluates Exact (pointwise equality with the canonical minimum at every breakpoint), "
-                     "Canonical and SameByEveryPath on every recorded profile. Found and led to the repair of F-C13-1.",
-                note=_SP_NOTE),
-}
+CHECKS = {}
